@@ -32,6 +32,11 @@ fn log(line: String) {
     eprintln!("@@{line}");
 }
 
+/// Concurrent phase of a `conc=K` request: invocations are not logged and the
+/// argument expressions take a while (so that runners racing for one
+/// `BenchArgs` overlap).
+static QUIET: std::sync::atomic::AtomicBool = std::sync::atomic::AtomicBool::new(false);
+
 /// Body shared by every benchmark: count calls and distinct threads.
 fn run_slot(slot: usize, arg: Option<&str>, bencher: Bencher) {
     let calls = AtomicU64::new(0);
@@ -44,6 +49,9 @@ fn run_slot(slot: usize, arg: Option<&str>, bencher: Bencher) {
             t.push(id);
         }
     });
+    if QUIET.load(SeqCst) {
+        return;
+    }
     log(format!(
         "R {slot} {} {} {}",
         arg.map(crate::rng::hex).unwrap_or_else(|| "~".into()),
@@ -63,6 +71,9 @@ macro_rules! slots {
                 A.runner(
                     || {
                         ARG_EVALS[$k].fetch_add(1, SeqCst);
+                        if QUIET.load(SeqCst) {
+                            std::thread::sleep(Duration::from_millis(2));
+                        }
                         ARG_TABLE.lock().unwrap()[$k].clone().unwrap()
                     },
                     |s: &String| s.clone(),
@@ -355,6 +366,30 @@ pub fn main(req: &str) {
         None => (0..n_items).collect(),
     };
     register(items, order);
+
+    // `conc=K`: K threads of this process run Divan at the same time (a test
+    // run of everything, one thread per benchmark) before the request proper.
+    // `BenchArgs` is a `Sync` static: however many runners race for it, the
+    // argument expression is evaluated once (`E` segment). What this phase
+    // prints is cut off by the parent at the marker line.
+    if let Some(k) = get("conc").and_then(|v| v.parse::<usize>().ok()) {
+        use std::io::Write;
+        QUIET.store(true, SeqCst);
+        let barrier = std::sync::Arc::new(std::sync::Barrier::new(k));
+        let hs: Vec<_> = (0..k)
+            .map(|_| {
+                let b = barrier.clone();
+                std::thread::spawn(move || {
+                    b.wait();
+                    divan::Divan::default().threads([1usize]).test_benches();
+                })
+            })
+            .collect();
+        let ok = hs.into_iter().map(|h| h.join().is_ok()).fold(true, |a, b| a && b);
+        QUIET.store(false, SeqCst);
+        let _ = std::io::stdout().flush();
+        println!("\n@@PHASE2{}", if ok { "" } else { " a concurrent run panicked" });
+    }
 
     let mut d = divan::Divan::default();
     // Runtime options through the builder.
